@@ -611,7 +611,9 @@ impl<'a> Gen<'a> {
     fn right_operand(&mut self, budget: usize) -> G {
         if self.cfg.w_side > 0 && budget >= 2 && self.rng.chance(1, 10) {
             let body = self.expr(budget - 1);
-            let v = self.leaf();
+            // the value behind the block is an identifier or a number: in front of a nested expression `{ .. }` the
+            // builder loses the expression value (finding D28)
+            let v = if self.rng.chance(self.cfg.ident_leaf_pct, 100) { self.ident() } else { G::num(self.rng.range_i(0, 12)) };
             return G::PreSide(Box::new(body), Box::new(v));
         }
         self.expr(budget)
@@ -930,7 +932,9 @@ impl<'a> Gen<'a> {
                     2 => format!(":{}.{}", k, k2),
                     _ => format!("(:{}, {})", k, n),
                 };
-                G::bin("~#", G::Atom(target), G::atom("\"\""))
+                // in its own brackets: next to other list items an un-bracketed cast would take the whole list as its
+                // operand (and a list may hold expression values, whose text is a jump-table index)
+                G::Atom(format!("({} ~# \"\")", target))
             }
             _ => self.leaf(),
         }
